@@ -78,7 +78,7 @@ def step (s : State) : Act → State
     -- `Requested` lasts only for the swarm-internal hand-over) and reports `Sending` while the
     -- wantlist is in flight; `deliverAB` reports `Ready`
     let a := if outs.any (fun o => match o with | .send .. => true | _ => false)
-      then (Node.step a (.sending 1 (.sending 1))).1 else a
+      then (Node.step a (.sending 1 1 (.sending 1))).1 else a
     absorbA { s with a := a } outs
   | .drainB =>
     let (b, outs, _) := Node.step s.b (.drain [] [])
@@ -104,7 +104,7 @@ def step (s : State) : Act → State
     | [] => s
     | m :: rest =>
       let b := (Node.step s.b (.msg 0 [] [] [] (some (m.full, entriesOf m)))).1
-      let a := (Node.step s.a (.sending 1 .ready)).1
+      let a := (Node.step s.a (.sending 1 1 .ready)).1
       { s with a := a, b := b, wireAB := rest }
   | .deliverBA =>
     match s.wireBA with
